@@ -70,7 +70,7 @@ var c18 = Register("C18", "C18.pow", func(a c18Args) *Violation {
 	expectInf, expectZero := false, false
 	general := false
 
-	for _, m := range ref.Modes {
+	for _, m := range loopModes() {
 		got := x.PowWithMode(y, m)
 		g := ref.Decode(got)
 		var got2 d128.Decimal
